@@ -178,7 +178,7 @@ def run(ctx):
                 "atomic variables, shuffled subsets) and judged by TLC; a state is non-trivial when it holds >= 2 variables")
     ctx.assumptions = ["values written are distinct integers (exact comparison)", "subset arguments are sampled per state (seeded)"]
     ndt, ndom = (3, 6) if ctx.quick else (4, 6)
-    L = 2 if ctx.quick else 3
+    L = 2        # all histories of length <= L (+ one level of removals); longer ones are sampled below
     max_vars = 10
     # design: mechanism realises the reference order
     m, cf = tlc.gen(ctx.work / "design", "MC_DofLayout", "DofLayout", consts(ndt, ndom, max_vars),
@@ -193,11 +193,10 @@ def run(ctx):
     # observe every distinct state through the public API (re-execute its shortest history)
     cases, paths = [], []
     ids = list(range(1, len(g["nodes"]) + 1))
-    if not ctx.quick and len(ids) > 3000:   # thorough: all states of the full-alphabet levels up to a cap + a sample
+    if not ctx.quick and len(ids) > 1600:   # thorough: a larger seeded sample of the reached states
         n_l = sum(1 for n in ids if len(ex.path_to(g, n)) <= L)
-        head = ids[:n_l] if n_l <= 2400 else ids[:400] + sorted(ctx.rng.sample(ids[400:n_l], 2000))
         tail = ids[n_l:]
-        ids = head + sorted(ctx.rng.sample(tail, min(600, len(tail))))
+        ids = ids[:200] + sorted(ctx.rng.sample(ids[200:n_l], min(1000, max(0, n_l - 200)))) + sorted(ctx.rng.sample(tail, min(400, len(tail))))
         ctx.extra["states_observed"] = f"{len(ids)} of {len(g['nodes'])} (seeded sample)"
     if ctx.quick and len(ids) > 260:   # quick tier: the 60 shallowest states + a seeded sample of the rest
         n_l = sum(1 for n in ids if len(ex.path_to(g, n)) <= L)     # states of the full-alphabet levels come first (BFS)
@@ -213,6 +212,20 @@ def run(ctx):
         cases.append(observe(s, ctx.rng))
         paths.append(path)
         ctx.case(key=("state", n), nontrivial=len(g["nodes"][n - 1]["reg"]) >= 2)
+    # seeded longer histories (length 3..6) over the same alphabet, lookups after every call, observed at the end
+    alphabet = [dict(ev="create", name=nm, d=d, dom=dom) for nm in NAMES for d in range(1, ndt + 1) for dom in range(1, ndom + 1)]
+    for k in range(40 if ctx.quick else 400):
+        hist, s = [], Sys()
+        for _ in range(ctx.rng.randint(3, 6)):
+            e = dict(ev="remove", name=ctx.rng.choice(NAMES)) if (ctx.rng.random() < 0.3 and s.es.variables) else dict(ctx.rng.choice(alphabet))
+            if e["ev"] == "create" and len(s.es.variables) + len(fx.domains()[e["dom"] - 1]) > max_vars:
+                continue
+            hist.append(e)
+            apply(s, e)
+            touch(s)
+        cases.append(observe(s, ctx.rng))
+        paths.append(hist)
+        ctx.case(key=("long", k), nontrivial=len(s.es.variables) >= 2)
     B = 400   # judge in batches: every case holds the full owner table, projections and round trips
     for b0 in range(0, len(cases), B):
         for v in ctx.judge("J_DofLayout", cases[b0:b0 + B], CLAUSES, consts=dict(Grids=fx.grid_consts(), DofTypes=fx.DOF_TYPES),
